@@ -200,7 +200,7 @@ def _sym(y):
     return int(round(y))
 
 
-def decode_with_tracklib(mdl, log, mode="scalar", verbose=0, ctor=False, trace=None):
+def decode_with_tracklib(mdl, log, mode="scalar", verbose=0, ctor=False, trace=None, rawlog=False):
     """Run the real HMM.estimate.  Returns (inference, cost) or M.Raised."""
     from tracklib.algo.dynamics import HMM
     T = len(mdl.states)
@@ -211,7 +211,7 @@ def decode_with_tracklib(mdl, log, mode="scalar", verbose=0, ctor=False, trace=N
     def S(track, k):
         return states[k]
 
-    if log:
+    if log and not rawlog:
         def Qf(s1, s2, k, track):
             return math.log(mdl.Q(s1, s2, k) + FLOOR)
 
@@ -424,7 +424,7 @@ def exh_blocks(tier):
 NCH_EXH = {"quick": 16, "thorough": 32}
 NCH_RND = {"quick": 16, "thorough": 32}
 N_RND = {"quick": 390, "thorough": 5000}
-FAMILIES = ["three", "quarter", "grid8", "real", "sparse", "three", "grid8", "real"]
+FAMILIES = ["three", "quarter", "grid8", "real", "sparse", "three", "grid8", "loglik"]
 
 
 def chunks(tier, seed):
@@ -441,7 +441,8 @@ def floors(tier):
     big = tier == "thorough"
     k = 8 if big else 1
     return {"monitors": {"membership": 500000 * k, "optimal_likelihood": 120000 * k, "last_epoch_cost": 120000 * k,
-                         "log_mode_same_cost": 100000 * k, "rerun_same_objects": 500 * k},
+                         "log_mode_same_cost": 100000 * k, "rerun_same_objects": 500 * k,
+                         "loglik.optimal_sum": 300 * k},
             "classes": {"exhaustive_block": 700 * k, "exh_three": 700 * k, "exh_quarter": 60 * k, "ties": 300, "zeros": 1000, "all_zero": 100,
                         "unique_optimum": 500, "unequal_counts": 1500, "stationary": 500, "per_epoch": 1500,
                         "T=1": 50, "T>=6": 500, "single_candidate_epoch": 500, "unnormalised_gt1": 300,
@@ -452,6 +453,15 @@ def floors(tier):
 
 
 def _value(rng, fam):
+    if fam == "loglik":
+        # the tables ARE log-likelihoods (what log mode is for): dyadic values from +3 (unnormalised) down to far
+        # below log(1e-300) = -690.8, with ties
+        u = rng.random()
+        if u < 0.25:
+            return float(rng.choice([0, -1, -3, -100, -690, -691, -700, -750, -800, -1000, -2000, 2, 3]))
+        if u < 0.5:
+            return -float(rng.randrange(650, 1200))
+        return -rng.randrange(0, 4000) / 4.0
     if fam == "three":
         return rng.choice(THREE)
     if fam == "quarter":
@@ -565,7 +575,66 @@ def run_exh(case, ctx):
     return held(sig, nt, cls)
 
 
+def run_loglik(case, ctx):
+    """Models given directly as logarithms, decoded in log mode: the assigned sequence must attain the maximum SUM of
+    log-likelihoods over all candidate sequences and the cost recorded at the last epoch must be minus that sum.
+    Sums are exact (dyadic values)."""
+    states, T = case["states"], case["T"]
+    mdl = model_from_tables(states, case["obs"], case["stationary"], case["P"], case["Q"])
+    counts = [len(x) for x in states]
+    p, q = mdl.tables(Fraction)
+    val = list(p[0])
+    for k in range(1, T):
+        val = [max(val[m] + q[k - 1][m][l] for m in range(counts[k - 1])) + p[k][l] for l in range(counts[k])]
+    best = max(val)
+    nseq = 1
+    for c in counts:
+        nseq *= c
+    cls = ["loglik", "stationary" if case["stationary"] else "per_epoch"]
+    flat = [v for row in p for v in row] + [v for mat in q for row in mat for v in row]
+    if any(v < -691 for v in flat):
+        cls.append("log_value_below_log_1e-300")
+    if best < -691:
+        cls.append("log_optimum_below_log_1e-300")
+    if any(v > 0 for v in flat):
+        cls.append("unnormalised_gt1")
+    sig = "L" + hashlib.blake2b(json.dumps([states, case["obs"], case["stationary"], case["P"], case["Q"]],
+                                           sort_keys=True).encode(), digest_size=8).hexdigest()
+    ctx.count("models_judged")
+    out = decode_with_tracklib(mdl, True, case["mode"], 0, case["ctor"], None, rawlog=True)
+    ctx.monitor("loglik.optimal_sum")
+    w = None
+    if M.is_raised(out):
+        w = {"what": "log mode (tables given as logarithms): estimate raised", "raised": out}
+    else:
+        inf, cost = out
+        idx = []
+        for k in range(T):
+            if len(inf) != T or inf[k] not in states[k]:
+                w = {"what": "log mode: state written at epoch %d is not one of that epoch's candidates" % k,
+                     "inference": inf, "candidates": states}
+                break
+            idx.append(states[k].index(inf[k]))
+        if w is None:
+            got = p[0][idx[0]]
+            for k in range(1, T):
+                got += q[k - 1][idx[k - 1]][idx[k]] + p[k][idx[k]]
+            if got != best:
+                w = {"what": "log mode (tables given as logarithms): the assigned sequence does not attain the maximum "
+                             "sum of log-likelihoods", "inference": inf, "log_likelihood_of_assigned": float(got),
+                     "maximum_log_likelihood": float(best), "hmm_cost": cost}
+            elif not M.feq(cost[T - 1], -float(best), 1e-9, 1e-9):
+                w = {"what": "log mode: cost recorded at the last epoch differs from minus the maximum log-likelihood",
+                     "hmm_cost_last": cost[T - 1], "expected": -float(best)}
+    if w is not None:
+        w.update({"counts": counts, "sequences": nseq, "P": p, "Q": q})
+        return violated(w, sig, nseq >= 2, cls)
+    return held(sig, nseq >= 2, cls)
+
+
 def run_rnd(case, ctx):
+    if case.get("family") == "loglik":
+        return run_loglik(case, ctx)
     states = case["states"]
     T = case["T"]
     if T != len(states) or T < 1 or any(len(s) < 1 for s in states) or len(case["obs"]) != T:
